@@ -299,10 +299,14 @@ def rule_OA(run: Run) -> RuleResult:
                     for a in list(c.args) + [k.value for k in c.keywords]:
                         a2 = _astu.expand_locals(a, amap, keep=frozenset([pname]))
                         t = _astu.norm_opts(a2)
-                        t = t.replace(f"'{op}'", "'<op>'").replace(pname, "<options>")
-                        args.append(t)
-                    kws = [k.arg for k in c.keywords]
-                    calls.setdefault(c.func.attr, {}).setdefault(op, set()).add((tuple(args), tuple(kws)))
+                        for opn in ("evaluate", "validate", "keys", "explain", "transform"):
+                            t = t.replace(f"'{opn}'", "'<op>'")
+                        t = t.replace(pname, "<options>")
+                        # what must agree is which operation and which options are handed on; further arguments
+                        # (the value an effect receives, …) belong to the operation
+                        if t in ("'<op>'", "<options>", "<options> or {}") or t.startswith("mix("):
+                            args.append(t)
+                    calls.setdefault(c.func.attr, {}).setdefault(op, set()).add((tuple(args), ()))
         for helper, per_op in calls.items():
             if "evaluate" not in per_op or len(per_op) < 2:
                 continue
